@@ -218,7 +218,6 @@ def _check_reaction(res, rt, S, modes=None, stoich=True):
         for vkind in VKINDS:
             if modes and (kmode, vkind) not in modes:
                 continue
-            mode = "k=%s,c=%s" % (kmode, vkind)
             case = dict(layer="R", rt=jrt, S=S, kmode=kmode, vkind=vkind)
             kparam, kmodel, extra = kparam_and_model(kmode, vkind, 0)
             res.transitions += 1
